@@ -55,6 +55,11 @@ def h_categorical(ctx, k, N, n_nan, pipeline, props):
     elif pipeline == "discretizer":
         from AutoCarver.discretizers import Discretizer
         d = Discretizer([], ["f"], min_freq=mf, copy=True, verbose=False)
+    elif pipeline == "qualitative_pregrouped":
+        # the user supplies an already grouped order: the second category is a member of the first one's group
+        from AutoCarver.discretizers import GroupedList
+        pre = GroupedList({cats[0]: [cats[1], cats[0]], **{c: [c] for c in cats[2:]}})
+        d = QualitativeDiscretizer(["f"], min_freq=mf, values_orders={"f": pre}, copy=True, verbose=False)
     x_before = X.copy()
     try:
         d.fit(X, y)
@@ -79,6 +84,19 @@ def h_categorical(ctx, k, N, n_nan, pipeline, props):
             ctx.require(False, "C08.transform-after-fit", f"{pipeline}: transform after dropping the feature raised {type(e).__name__}: {str(e)[:120]}")
         ctx.require(out["f"].equals(x_before["f"]) or list(out["f"].astype(str)) == list(x_before["f"].astype(str)), "C08.dropped-feature-touched", "a dropped feature's column was modified by transform")
         return dict(counters={"dropped": 1}, sample=dict(sizes=sizes, outcome="dropped"), result=dict(outcome="dropped"))
+    if pipeline == "qualitative_pregrouped":
+        vo = d.values_orders["f"]
+        allv = vo.values()
+        ctx.require(sorted(v for v in allv if v not in (NAN, OTHER)) == sorted(cats) and len(allv) == len(set(allv)), "C08.partition", f"pre-grouped order: values_orders {dict(vo.content)} does not partition {cats}")
+        ctx.require(vo.get_group(cats[0]) == vo.get_group(cats[1]), "C04.wrong-group", f"user-supplied grouping of {cats[1]!r} with {cats[0]!r} was lost: {dict(vo.content)}")
+        out = list(d.transform(X)["f"])
+        lab = {}
+        for v, o in zip(col, out):
+            if isinstance(v, str):
+                ctx.require(lab.setdefault(vo.get_group(v), o) == o, "C04.wrong-group", f"rows of one group carry different labels: {list(zip(col, out))}")
+                ctx.require(o == d.labels_per_values["f"][v], "C04.member-label", f"value {v!r} transformed to {o!r}, labels_per_values says {d.labels_per_values['f'][v]!r}")
+        ctx.require(len(set(lab.values())) == len(lab), "C04.label-collision", f"two groups share a label: {lab}")
+        return dict(counters={"ok": 1}, sample=dict(sizes=sizes, pipeline=pipeline, groups={k_: list(v) for k_, v in vo.content.items()}), result=dict(n=len(vo)))
     if ordinal:
         vo = d.values_orders["f"]
         allv = vo.values()
@@ -137,7 +155,7 @@ def obligation(tier, props, name):
             if N < k:
                 continue
             for n_nan in (0, 2):
-                for pipeline in ("categorical", "qualitative") + (("qualitative_ordinal", "discretizer_ordinal", "discretizer", "qualitative_ordinal_numeric") if "C08" in props else ()) + (("qualitative_ordinal", "qualitative_ordinal_numeric", "qualitative_ordinal_bigfloat") if "C03" in props else ()):
+                for pipeline in ("categorical", "qualitative") + (("qualitative_ordinal", "discretizer_ordinal", "discretizer", "qualitative_ordinal_numeric", "qualitative_pregrouped") if "C08" in props else ()) + (("qualitative_ordinal", "qualitative_ordinal_numeric", "qualitative_ordinal_bigfloat") if "C03" in props else ()):
                     jobs.append(dict(k=k, N=N, n_nan=n_nan, pipeline=pipeline, props=sorted(props)))
     return Obligation(
         name=name, harness=h_categorical, jobs=jobs,
